@@ -114,6 +114,14 @@ STR_BODY = z3.Star(alt(not_chars('"\\'), R('\\"'), R('\\\\'), R('\\n'), R('\\t')
 CHAR_BODY = alt(not_chars("'\\"), R("\\'"), R('\\\\'), R('\\n'), R('\\t'), R('\\r'), R('\\0'), UESC)
 
 
+def part_ty(p):
+    """type whose rendering language a key part ranges over: the type the formatting call site names, unless that is a bare type
+    parameter of generic key code (`T`, `&T`, `?`), in which case the placeholder's own (monomorphic) type"""
+    t = re.sub(r"^(&('\w+ )?(mut )?)+", '', str(p[3]).strip())
+    if t == '?' or re.match(r'^[A-Z][A-Za-z]?\d?$', t) and t not in ('Pt',): return getattr(p[2], 'ty', p[3])
+    return p[3]
+
+
 def lang(ty, kind='debug'):
     ty = ty.strip()
     ty = re.sub(r"^&('\w+ )?", '', ty).strip() if not ty.startswith('&[') and not ty.startswith("&'static [") else ty
@@ -176,7 +184,7 @@ def run(P, item):
                 return z3.Concat(*parts) if len(parts) > 1 else parts[0]
             try:
                 for i, p in enumerate(argparts):
-                    L = lang(p[3] if p[3] not in ('?', 'T') else p[2].ty, p[1])
+                    L = lang(part_ty(p), p[1])
                     for v in (xs[i], ys[i]):
                         s.add(z3.InRe(v, L)); s.add(z3.Length(v) <= maxlen)
                 decided = False
@@ -191,7 +199,7 @@ def run(P, item):
                         post = ''.join(p[1] for p in flat[k + 1:idx[pos + 1]])
                         q = z3.Solver(); q.set('timeout', 60000)
                         x, y, w1, w2 = z3.String('x'), z3.String('y'), z3.String('w1'), z3.String('w2')
-                        L = lang(argparts[pos][3] if argparts[pos][3] not in ('?', 'T') else argparts[pos][2].ty, argparts[pos][1])
+                        L = lang(part_ty(argparts[pos]), argparts[pos][1])
                         q.add(z3.InRe(x, L), z3.InRe(y, L), z3.Length(x) <= maxlen, z3.Length(y) <= maxlen, z3.Length(w1) <= maxlen, z3.Length(w2) <= maxlen, x != y)
                         q.add(z3.Concat(x, z3.StringVal(post), w1) == z3.Concat(y, z3.StringVal(post), w2))
                         t1 = time.time(); r = q.check(); ts += time.time() - t1; nq += 1
@@ -223,7 +231,7 @@ def run(P, item):
                             if p_[0] == 'lit': parts.append(z3.StringVal(p_[1]))
                             else:
                                 v = z3.String(f'{tag}{len(vs)}'); vs.append(v); parts.append(v)
-                                q.add(z3.InRe(v, lang(p_[3] if p_[3] not in ('?', 'T') else p_[2].ty, p_[1]))); q.add(z3.Length(v) <= maxlen)
+                                q.add(z3.InRe(v, lang(part_ty(p_), p_[1]))); q.add(z3.Length(v) <= maxlen)
                         return (z3.Concat(*parts) if len(parts) > 1 else (parts[0] if parts else z3.StringVal(''))), vs
                     ka, va = mk(fa, 'u'); kb, vb = mk(fb, 'v')
                     q.add(ka == kb)
